@@ -746,7 +746,7 @@ theorem value_path_sound (p : Int) (bs : List Block) (hsd : SingleDef (MuOf bs) 
   have hinit : GInv (MuOf bs) p (stmtsOf bs) (valInit p bs) (fun t => t ∈ stmtsOf bs) :=
     ⟨rfl, fun v hv => by
         have : v ∈ multiOf (bs.flatMap (·.stmts)) := hv
-        simpa [valInit] using this,
+        simpa [valInit] using Or.inl this,
      fun s hs => List.mem_map.mpr ⟨s, hs, rfl⟩,
      fun σ _ v x hx => by simp [ValEnv.get, valInit] at hx, h0⟩
   obtain ⟨env', M', g1, g2⟩ := loop_inv (MuOf bs) p (stmtsOf bs) hsd k (valInit p bs) bs _ hinit (fun _ h => h)
